@@ -38,6 +38,7 @@ pub struct Space {
     pub bear: Box<dyn Fn(P, P) -> f64>,
     pub dest: Box<dyn Fn(P, f64, f64) -> P>,
     pub ratio: Box<dyn Fn(P, P, f64) -> P>,
+    pub dist_between: Option<Box<dyn Fn(P, P, f64) -> P>>,   // InterpolatePoint::point_at_distance_between (new API only)
     pub along: Box<dyn Fn(P, P, f64, bool) -> Vec<P>>,
     pub len: Box<dyn Fn(&LineString<f64>) -> f64>,
 }
@@ -54,6 +55,7 @@ pub fn spaces(with_legacy: bool) -> Vec<Space> {
             bear: Box::new(|a, b| Haversine.bearing(a, b)),
             dest: Box::new(|a, t, d| Haversine.destination(a, t, d)),
             ratio: Box::new(|a, b, r| Haversine.point_at_ratio_between(a, b, r)),
+            dist_between: Some(Box::new(|a, b, d| Haversine.point_at_distance_between(a, b, d))),
             along: Box::new(|a, b, m, e| Haversine.points_along_line(a, b, m, e).collect()),
             len: Box::new(|l| Haversine.length(l)),
         },
@@ -63,6 +65,7 @@ pub fn spaces(with_legacy: bool) -> Vec<Space> {
             bear: Box::new(move |a, b| hr.bearing(a, b)),
             dest: Box::new(move |a, t, d| hr.destination(a, t, d)),
             ratio: Box::new(move |a, b, r| hr.point_at_ratio_between(a, b, r)),
+            dist_between: Some(Box::new(move |a, b, d| hr.point_at_distance_between(a, b, d))),
             along: Box::new(move |a, b, m, e| hr.points_along_line(a, b, m, e).collect()),
             len: Box::new(move |l| hr.length(l)),
         },
@@ -72,6 +75,7 @@ pub fn spaces(with_legacy: bool) -> Vec<Space> {
             bear: Box::new(|a, b| Geodesic.bearing(a, b)),
             dest: Box::new(|a, t, d| Geodesic.destination(a, t, d)),
             ratio: Box::new(|a, b, r| Geodesic.point_at_ratio_between(a, b, r)),
+            dist_between: Some(Box::new(|a, b, d| Geodesic.point_at_distance_between(a, b, d))),
             along: Box::new(|a, b, m, e| Geodesic.points_along_line(a, b, m, e).collect()),
             len: Box::new(|l| Geodesic.length(l)),
         },
@@ -81,6 +85,7 @@ pub fn spaces(with_legacy: bool) -> Vec<Space> {
             bear: Box::new(move |a, b| gc.bearing(a, b)),
             dest: Box::new(move |a, t, d| gc.destination(a, t, d)),
             ratio: Box::new(move |a, b, r| gc.point_at_ratio_between(a, b, r)),
+            dist_between: Some(Box::new(move |a, b, d| gc.point_at_distance_between(a, b, d))),
             along: Box::new(move |a, b, m, e| gc.points_along_line(a, b, m, e).collect()),
             len: Box::new(move |l| gc.length(l)),
         },
@@ -90,6 +95,7 @@ pub fn spaces(with_legacy: bool) -> Vec<Space> {
             bear: Box::new(|a, b| Rhumb.bearing(a, b)),
             dest: Box::new(|a, t, d| Rhumb.destination(a, t, d)),
             ratio: Box::new(|a, b, r| Rhumb.point_at_ratio_between(a, b, r)),
+            dist_between: Some(Box::new(|a, b, d| Rhumb.point_at_distance_between(a, b, d))),
             along: Box::new(|a, b, m, e| Rhumb.points_along_line(a, b, m, e).collect()),
             len: Box::new(|l| Rhumb.length(l)),
         },
@@ -101,6 +107,7 @@ pub fn spaces(with_legacy: bool) -> Vec<Space> {
             bear: Box::new(|a, b| a.haversine_bearing(b)),
             dest: Box::new(|a, t, d| a.haversine_destination(t, d)),
             ratio: Box::new(|a, b, r| a.haversine_intermediate(&b, r)),
+            dist_between: None,
             along: Box::new(|a, b, m, e| a.haversine_intermediate_fill(&b, m, e)),
             len: Box::new(|l| l.haversine_length()),
         });
@@ -110,6 +117,7 @@ pub fn spaces(with_legacy: bool) -> Vec<Space> {
             bear: Box::new(|a, b| a.geodesic_bearing(b)),
             dest: Box::new(|a, t, d| a.geodesic_destination(t, d)),
             ratio: Box::new(|a, b, r| a.geodesic_intermediate(&b, r)),
+            dist_between: None,
             along: Box::new(|a, b, m, e| a.geodesic_intermediate_fill(&b, m, e)),
             len: Box::new(|l| l.geodesic_length()),
         });
@@ -119,6 +127,7 @@ pub fn spaces(with_legacy: bool) -> Vec<Space> {
             bear: Box::new(|a, b| a.rhumb_bearing(b)),
             dest: Box::new(|a, t, d| a.rhumb_destination(t, d)),
             ratio: Box::new(|a, b, r| a.rhumb_intermediate(&b, r)),
+            dist_between: None,
             along: Box::new(|a, b, m, e| a.rhumb_intermediate_fill(&b, m, e)),
             len: Box::new(|l| l.rhumb_length()),
         });
@@ -369,6 +378,14 @@ fn journey(cx: &mut Ctx, n: u64, case: &Value, sp: &[Space]) {
                 for (k, q) in quarters.iter().enumerate() {
                     let r = (k + 1) as f64 / 4.0;
                     j.point("ratio", format!("point_at_ratio_between(a, b, {r})"), guard(|| (s.ratio)(a, b, r)), q, tol_pt(q));
+                    // the distance form of the same interpolation (metres measured by the same space)
+                    if let Some(db) = &s.dist_between {
+                        j.point("distance_between", format!("point_at_distance_between(a, b, {r} * distance(a, b))"), guard(|| db(a, b, r * (s.dist)(a, b))), q, tol_pt(q));
+                    }
+                }
+                if let Some(db) = &s.dist_between {
+                    j.point("distance_between", "point_at_distance_between(a, b, 0)".into(), guard(|| db(a, b, 0.0)), &start, TOL_DEG);
+                    j.point("distance_between", "point_at_distance_between(a, b, distance(a, b))".into(), guard(|| db(a, b, (s.dist)(a, b))), &dest, tol_pt(&dest));
                 }
                 if steps > 0 && dab > 0.0 {
                     let mid = quarters[1].points()[0];
